@@ -13,7 +13,19 @@ func init() {
 
 // every search: each acknowledged, not-removed document is returned; no id that was never
 // added; the id set equals that of one in-memory hybrid index holding the same live documents
+// a search object built once per store (right after Open) and executed again at every check: Execute must
+// not carry state from one call into the next
+var vC08Prepared HybridSearch
+
 func vStoreSearchCheck(s *PersistentHybridIndex, live []vStoreDoc, everAdded map[uint32]bool, ref HybridSearchIndex, label string) {
+	if vC08Prepared != nil {
+		rp, ep := vC08Prepared.Execute()
+		vAssert(ep == nil, label+"-search-ok")
+		pids := vIDsOfHybrid(rp)
+		for _, d := range live {
+			vAssert(vContains(pids, d.id), label+"-acknowledged-document-visible-to-a-reused-search-object")
+		}
+	}
 	// the query sits exactly on document 12 (distance 0 when it is live)
 	r, e := s.NewSearch().WithVector([]float32{5}).WithK(10).Execute()
 	vAssert(e == nil, label+"-search-ok")
@@ -63,6 +75,7 @@ func H_C08_history() {
 	cfg.CompactionThreshold = 2
 	s, err := OpenPersistentHybridIndex(cfg)
 	vAssert(err == nil, "open-ok")
+	vC08Prepared = s.NewSearch().WithVector([]float32{5}).WithK(10)
 	flat, _ := NewFlatIndex(1, L2Squared)
 	ref := NewHybridSearchIndex(flat, nil, nil)
 	var live []vStoreDoc
@@ -90,7 +103,36 @@ func H_C08_history() {
 	}
 	L := 3 + vChoose("len", 2)
 	for step := 0; step < L; step++ {
-		switch vChoose(vName("op", step), 7) {
+		switch vChoose(vName("op", step), 8) {
+		case 7: // Remove of a document that has left the writable memtable (frozen or flushed): whatever the store
+			// answers, it has to stand by it — refused: the document stays visible; acknowledged: it stays gone
+			var tgt *vStoreDoc
+			for i := range live {
+				inM := false
+				for _, m := range inMutable {
+					if m.id == live[i].id {
+						inM = true
+					}
+				}
+				if !inM {
+					tgt = &live[i]
+					break
+				}
+			}
+			if tgt == nil {
+				continue
+			}
+			id := tgt.id
+			if s.Remove(id) == nil {
+				vAssert(ref.Remove(id) == nil, "reference-remove-ok")
+				for i := range live {
+					if live[i].id == id {
+						live = append(live[:i:i], live[i+1:]...)
+						break
+					}
+				}
+				vTag("remove-of-flushed-document-acknowledged")
+			}
 		case 6: // Remove a document that still sits in the writable memtable
 			if len(inMutable) == 0 {
 				continue
@@ -211,6 +253,7 @@ func H_C08_after_flush() {
 	dir := vTempDir()
 	s, err := OpenPersistentHybridIndex(vFreshStoreCfg(dir, false))
 	vAssert(err == nil, "open-ok")
+	vC08Prepared = s.NewSearch().WithVector([]float32{5}).WithK(10)
 	flat, _ := NewFlatIndex(1, L2Squared)
 	ref := NewHybridSearchIndex(flat, nil, nil)
 	var live []vStoreDoc
@@ -236,7 +279,13 @@ func H_C08_after_flush() {
 		s.memtableQueue.Rotate()
 	}
 	vAssert(s.Flush() == nil, "flush-ok")
-	vStoreSearchCheck(s, live, ever, ref, "after-flush")
+	if vChoose("first_search_small_k", 2) == 1 {
+		// the first search after the flush asks for one hit only
+		r1, e1 := s.NewSearch().WithVector([]float32{1}).WithK(1).Execute()
+		vAssert(e1 == nil && len(r1) == 1 && r1[0].ID == vStoreDocs[0].id, "k-1-search-returns-the-nearest-document")
+	} else {
+		vStoreSearchCheck(s, live, ever, ref, "after-flush")
+	}
 	add(vStoreDocs[2])
 	for i := 0; i < 3; i++ {
 		vStoreSearchCheck(s, live, ever, ref, "after-later-add")
@@ -258,6 +307,7 @@ func H_C08_compact() {
 	cfg.CompactionThreshold = nb
 	s, err := OpenPersistentHybridIndex(cfg)
 	vAssert(err == nil, "open-ok")
+	vC08Prepared = s.NewSearch().WithVector([]float32{5}).WithK(10)
 	flat, _ := NewFlatIndex(1, L2Squared)
 	ref := NewHybridSearchIndex(flat, nil, nil)
 	var live []vStoreDoc
